@@ -31,25 +31,26 @@ class Protocol:
         m = lambda: self.m
 
         def flag_idx():
-            return self.m.ctx_fields.index("root_needs_trace")
+            return self.m.ctx_index("root_needs_trace")
 
         def get_field(st, name):
-            return st.mem[("ctx",)][3][self.m.ctx_fields.index(name)]
+            return st.mem[("ctx",)][3][self.m.ctx_index(name)]
 
         def set_field(st, name, v):
             cur = st.mem[("ctx",)]
             f = list(cur[3])
-            f[self.m.ctx_fields.index(name)] = v
+            f[self.m.ctx_index(name)] = v
             st.mem[("ctx",)] = ("adt", cur[1], cur[2], tuple(f))
 
         def mark_one(ip, st, args, info):
             flag = get_field(st, "root_needs_trace")
             ph = get_field(st, "phase")
             st.g["steps"] = st.g.get("steps", ()) + ("mark",) if len(st.g.get("steps", ())) < 3 else st.g.get("steps")
-            st.event("mark_step", "Continue" if flag == I(1) else "Break")
-            if flag == I(1):
+            pending = self.m.flag_decode(flag) == 1
+            st.event("mark_step", "Continue" if pending else "Break")
+            if pending:
                 s2 = st.fork()
-                set_field(s2, "root_needs_trace", I(0))
+                set_field(s2, "root_needs_trace", self.m.flag_value(False))
                 s3 = st.fork()
                 return [(st, "ret", adt(CF, 0, (UNIT,))), (s2, "ret", adt(CF, 0, (UNIT,))),
                         (s3, "panic", "user Collect::trace")]
